@@ -630,12 +630,54 @@ def faultAt (k : Nat) (o : Outcome) (base : Transport) : Transport :=
 
 def asciiLower (s : Str) : Str := s.map Char.toLower
 
-/-- `fnmatch` for patterns made of `*`, `?` and literal characters (no `[`): `globMatch path pattern` -/
-def globPat : Str → Str → Bool
+/-! `fnmatch` character classes (`fnmatch.translate`): after `[` an optional `!`, then an optional `]` taken as a
+member, then everything up to the next `]`; without a closing `]` the `[` is a literal character.  Members are single
+characters and ranges `lo-hi` (a `-` that is the first or the last member is a literal; an empty range has no
+member).  NOT modelled: the regex escapes of `\\`, `^`, `&&`, `~~`, `||` inside a class and the re-chunking of several
+hyphens in a row - the generators write classes over ASCII letters / digits only. -/
+
+/-- `(members, rest after the closing bracket)`; `none` = no closing bracket.  `first`: a `]` here is a member -/
+def classSplit : Str → Bool → Option (Str × Str)
+  | [], _ => none
+  | ']' :: r, false => some ([], r)
+  | c :: r, _ => (classSplit r false).map (fun (m, rest) => (c :: m, rest))
+
+def classHas (x : Char) : Str → Bool
+  | lo :: '-' :: hi :: r => (lo.toNat ≤ x.toNat && x.toNat ≤ hi.toNat) || classHas x r
+  | c :: r => x == c || classHas x r
+  | [] => false
+
+/-- the class at the head of a pattern (text after `[`): `(negated, members, rest)` -/
+def classOf (p : Str) : Option (Bool × Str × Str) :=
+  match p with
+  | '!' :: q => (classSplit q true).map (fun (m, rest) => (true, m, rest))
+  | q => (classSplit q true).map (fun (m, rest) => (false, m, rest))
+
+inductive GTok
+  | star | one | lit (c : Char) | cls (neg : Bool) (members : Str)
+deriving Repr, DecidableEq
+
+/-- the pattern as a token list (fuel = pattern length + 1 suffices: every step consumes a character) -/
+def globToks : Nat → Str → List GTok
+  | 0, _ => []
+  | _, [] => []
+  | n + 1, '*' :: p => .star :: globToks n p
+  | n + 1, '?' :: p => .one :: globToks n p
+  | n + 1, '[' :: p =>
+    match classOf p with
+    | some (neg, m, rest) => .cls neg m :: globToks n rest
+    | none => .lit '[' :: globToks n p
+  | n + 1, ch :: p => .lit ch :: globToks n p
+
+def globTok : List GTok → Str → Bool
   | [], s => s.isEmpty
-  | '*' :: p, s => (List.range (s.length + 1)).any (fun k => globPat p (s.drop k))
-  | '?' :: p, s => match s with | [] => false | _ :: r => globPat p r
-  | ch :: p, s => match s with | [] => false | x :: r => x == ch && globPat p r
+  | .star :: p, s => (List.range (s.length + 1)).any (fun k => globTok p (s.drop k))
+  | .one :: p, s => match s with | [] => false | _ :: r => globTok p r
+  | .lit ch :: p, s => match s with | [] => false | x :: r => x == ch && globTok p r
+  | .cls neg m :: p, s => match s with | [] => false | x :: r => (classHas x m != neg) && globTok p r
+
+/-- `fnmatch` for patterns made of `*`, `?`, character classes and literal characters: `globMatch path pattern` -/
+def globPat (p s : Str) : Bool := globTok (globToks (p.length + 1) p) s
 
 def globMatch (path pat : Str) : Bool := globPat pat path
 
